@@ -26,6 +26,7 @@ def run(ctx: Ctx):
     rc.r_registered_material(ctx, rt, "C06")
     rc.r_model_dict(ctx, rt, "C06")
     rc.r_model_state(ctx, rt, "C06")
+    rc.r_column_order(ctx, rt, "C06")      # a re-imported table arrives with a branch column: the stored layout must not depend on that
     ctx.floor("symbolic JSON round trips", n, 12)
     ctx.analysed["functions"] = ["isotherm_to_json", "isotherm_from_json", "BaseIsotherm.to_dict", "BaseIsotherm.__init__",
                                  "IsothermBaseModel.to_dict/__init__", "model_from_dict", "get_isotherm_model"]
